@@ -551,8 +551,11 @@ class Interp:
                 return obj
             if name == "_value2member_map_" and self.is_enum_class(obj.name):
                 return {m.value: m for m in self.enum(obj.name).values()}
-            if name == "__members__" and self.is_enum_class(obj.name):
+            if name in ("__members__", "_member_map_") and self.is_enum_class(obj.name):
                 return dict(self.enum(obj.name))
+            if name == "_member_names_" and self.is_enum_class(obj.name):
+                # canonical names only: an alias (a second name for an existing value) is in __members__ but not here
+                return [k for k, m in self.enum(obj.name).items() if m.name == k]
             if obj.name in self.dynamic_enums:
                 base = self.repo.cls(self.dynamic_enums[obj.name])
                 m = self.repo.lookup_method(base, name)
